@@ -1,5 +1,6 @@
 import Driver.Util
 import MevCommit.Model.Monitor
+import MevCommit.Model.WatchLoop
 open Lean
 namespace Driver.C09
 open MevCommit MevCommit.Monitor Driver
@@ -30,7 +31,10 @@ def handle (inp impl : Json) : CaseResult :=
   let allSteps := (jarr inp "steps").toList
   -- "missed-check": new blocks arrived, the checker was idle, transactions below the confirmed
   -- nonce were still unresolved, and the monitor asked the chain node nothing (no step of the model)
-  let missed := allSteps.any (fun s => jstr s "t" == "missed-check")
+  -- (`Model/WatchLoop`: a tick that sees a newer block with the checker idle hands over a check with the
+  -- confirmed nonce the node reports — so the realised "nothing asked" contradicts the model)
+  let missed := allSteps.any (fun s => jstr s "t" == "missed-check" &&
+    (WatchLoop.step ⟨true, 0, 0⟩ .tick (.ok 1) (.ok (jnat s "c")) true).2 == .check (jnat s "c") 1)
   let steps := allSteps.filter (fun s => jstr s "t" != "missed-check")
   let ops := steps.map opOf
   let outs := run init ops
